@@ -4,7 +4,8 @@
    [wf_state s]  : s is a state the Rust types can hold: every i32-typed value
                    (INTEGER stack, INTVECTOR elements, integer literals anywhere
                    in CODE / EXEC / bound items, message headers, node states)
-                   is an i32 and both fields of every INDEX are usize values.
+                   is an i32 and both fields of every INDEX are usize values; the
+                   two integer bounds of the configuration (INTEGER.RAND) are i32.
                    Nothing about lengths, capacities or graph structure.
    [envelope s]  : the top CODE item has at most i32::MAX points (the only
                    resource bound any modelled instruction body depends on:
@@ -50,7 +51,8 @@ Record wf_state (s : state) : Prop := mk_wf {
   wf_bind : Forall wf_bound (st_bind s);
   wf_input : Forall wf_msg (st_input s);
   wf_output : Forall wf_msg (st_output s);
-  wf_graphs : Forall wf_graph (st_graph s) }.
+  wf_graphs : Forall wf_graph (st_graph s);
+  wf_cfg : wf_z (cfg_min_rand_int (st_cfg s)) /\ wf_z (cfg_max_rand_int (st_cfg s)) }.
 
 (* the resource envelope *)
 Definition envelope (s : state) : Prop :=
